@@ -1265,6 +1265,11 @@ def run(chk):
              '(suffix_list + prefix_list values vs unit_map keys); tables non-empty', floor=22, control=True)
     chk.rule('C05.merge', '{**A, **B} table merges have no unit key with differing spelling lists', floor=4, control=True)
     chk.rule('C05.side', '*PrefixList tables are wired into prefix_list and *SuffixList tables into suffix_list', floor=35, control=True)
+    chk.rule('C05.one-entity', "NumberWithUnitExtractor.extract, interpreted with stub matchers AND a separate-unit pattern that "
+             'matches the unit character, returns exactly one entity per number + adjacent listed unit (none inside it)',
+             floor=2, control=True)
+    chk.rule('C05.format-once', "on BaseCurrencyParser.parse's single-amount path the emitted number is the unit parser's "
+             'culture-formatted string, with culture_info.format() applied no further time', floor=3, control=True)
     chk.rule('C05.bind', 'add_dict_to_unit_map and the helpers it calls bind a table the way the table rules assume (unit name as '
              'is, value stripped and split on |, empty names/spellings skipped, first binding wins, insertion order) - interpreted '
              'on small table sequences', floor=1, control=True)
@@ -1334,6 +1339,8 @@ def run(chk):
             done_p.add(pq)
             nforms += rule_shadow_key_case(ctx, p, ex, pa)
     rule_fresh(ctx)
+    rule_one_entity(ctx)
+    rule_format_once(ctx)
     rule_brackets(ctx)
     rule_prefix_pick(ctx)
     rule_ratio_use(ctx)
@@ -1952,6 +1959,142 @@ def rule_brackets(ctx):
         chk.ok('C05.brackets', c.mod.path, construct, 'equals the four-pair reference on %d keys' % n, line)
 
 
+# ---- number + listed unit is ONE entity (NumberWithUnitExtractor.extract interpreted with a separate-unit pattern) -----
+
+def one_entity_texts():
+    """(text, prefix chars, suffix chars, expected spans): '1' = digit, '$' = unit character"""
+    out = []
+    for num in ('1', '11'):
+        for gap in ('', ' '):
+            for unit in ('$', '$$'):
+                t = num + gap + unit
+                out.append((t, '', '$', [(0, len(t) - 1)]))
+                out.append((t, '$', '$', [(0, len(t) - 1)]))
+                t = unit + gap + num
+                out.append((t, '$', '', [(0, len(t) - 1)]))
+    out.append(('1$ 1$', '', '$', [(0, 1), (3, 4)]))
+    out.append(('1 $ 11 $', '', '$', [(0, 2), (4, 7)]))
+    out.append(('$1 $1', '$', '', [(0, 1), (3, 4)]))
+    return out
+
+
+def one_entity_problem(text, res, want):
+    """res: [(start, inclusive end, text)] returned for `text`; want: the number+unit spans"""
+    spans = sorted((s, e) for s, e, _ in res)
+    if spans == sorted(want):
+        return None
+    inner = [(s, e) for s, e in spans if any(ws <= s and e <= we and (s, e) != (ws, we) for ws, we in want)]
+    if inner:
+        return 'returns %s: %s lie(s) inside a number+unit entity (%r extracted a second time as a stand-alone unit)' % (
+            spans, inner, text[inner[0][0]:inner[0][1] + 1])
+    return 'returns %s, expected exactly %s' % (spans, sorted(want))
+
+
+def rule_one_entity(ctx):
+    from ..ointerp import PyExc
+    from .c12 import unitcand_run, _char_runs
+    chk, idx = ctx['chk'], ctx['idx']
+    cls = idx.cls(NWU + '.extractors.NumberWithUnitExtractor')
+    er_cls = idx.cls('recognizers_text.extractor.ExtractResult')
+    mr_cls = idx.cls('recognizers_text.matcher.match_result.MatchResult')
+    fn = cls.methods.get('extract')
+    if fn is None:
+        raise AnalysisError('anchor vanished: NumberWithUnitExtractor.extract')
+    types = []
+    for nm in ('SYS_UNIT_CURRENCY', 'SYS_UNIT_DIMENSION'):
+        _, node = idx.class_attr(ctx['consts'], nm)
+        if not isinstance(node, ast.Constant):
+            raise AnalysisError('Constants.%s not found' % nm)
+        types.append((nm, node.value))
+    for nm, tv in types:
+        bad, n = [], 0
+        for text, pre, suf, want in one_entity_texts():
+            n += 1
+            try:
+                res = unitcand_run(idx, cls, fn, cls, text, pre, suf, er_cls, mr_cls, tv, separate=lambda src: _char_runs(src, '$'))
+                prob = one_entity_problem(text, res, want)
+            except PyExc as ex:
+                prob = 'raises %s' % ex
+            if prob:
+                bad.append((text, pre, suf, prob))
+        construct = 'NumberWithUnitExtractor.extract [%s]: number next to a listed unit' % nm
+        if bad:
+            t, pre, suf, prob = bad[0]
+            chk.bad('C05.one-entity', cls.mod.path, construct, '%r (prefix units %r, suffix units %r): %s' % (t, pre, suf, prob),
+                    "on the text %r (1 = digit, $ = a listed unit spelling that the separate-unit pattern also matches; prefix "
+                    'matcher finds %r, suffix matcher %r) extract %s; %d of %d tabulated texts differ. A number next to a listed '
+                    'spelling must come back as ONE entity covering both' % (t, pre, suf, prob, len(bad), n), fn.lineno)
+        else:
+            chk.ok('C05.one-entity', cls.mod.path, construct, 'one entity per number+unit on %d texts' % n, fn.lineno)
+
+
+# ---- the emitted value is the number parser's string, culture-formatted no further time (BaseCurrencyParser.parse) ----
+
+def format_tag_problem(number, sent):
+    """number: what the currency parser emits for the unit parser's number `sent` when culture_info.format tags its argument"""
+    if number == sent:
+        return None
+    if isinstance(number, str) and sent in number:
+        return 'the number %r comes out as %r: culture_info.format() was applied %d more time(s)' % (sent, number, number.count('fmt('))
+    return 'the number %r comes out as %r' % (sent, number)
+
+
+def rule_format_once(ctx):
+    from ..ointerp import Interp, FuncRef, Obj, Native, PyExc, native
+    chk, idx = ctx['chk'], ctx['idx']
+    c = idx.cls(NWU + '.parsers.BaseCurrencyParser')
+    fn = c.methods.get('parse')
+    if fn is None:
+        raise AnalysisError('anchor vanished: BaseCurrencyParser.parse')
+    er_cls = idx.cls('recognizers_text.extractor.ExtractResult')
+    pr_cls = idx.cls('recognizers_text.parser.ParseResult')
+    _, cur = idx.class_attr(ctx['consts'], 'SYS_UNIT_CURRENCY')
+    SENT = '2,5'
+    cases = (('unit with an ISO code', 'Euro', 'EUR'), ('unit with an internal (fake) ISO code', 'Pound', '_P'),
+             ('unit without ISO code', 'Thing', None))
+    for what, unit, iso in cases:
+        def typing_list(it2, a, k):          # stands for typing.List, only ever used as an isinstance target
+            raise PyExc('typing.List called')
+
+        def isinstance_hook(it2, a, k):
+            if len(a) == 2 and a[1] is typing_list:
+                return isinstance(a[0], list)
+            return it2.isinstance_(a[0], a[1], None)
+        it = Interp(idx, hooks={'name:List': typing_list, 'name:isinstance': isinstance_hook}, where='C05.format-once', budget=100000)
+        isomap = {}
+        if iso is not None:
+            isomap[unit] = (unit, iso)
+
+        def inner_parse(it2, a, k, unit=unit):
+            return Obj(pr_cls, {'start': 0, 'length': 8, 'text': '2,5 unit', 'type': cur.value, 'data': None, 'meta_data': None,
+                                'resolution_str': SENT + ' ' + unit, 'timex_str': None,
+                                'value': Native({'number': SENT, 'unit': unit}, 'UnitValue')})
+        cfg = Native({'culture_info': Native({'format': native(lambda it2, a, k: 'fmt(%s)' % (a[0],))}, 'culture_info'),
+                      'currency_name_to_iso_code_map': isomap, 'currency_fraction_code_list': {}, 'currency_fraction_num_map': {},
+                      'currency_fraction_mapping': {}}, 'config')
+        selfo = Obj(c, {'config': cfg, 'number_with_unit_parser': Native({'parse': native(inner_parse)}, 'unit parser')})
+        src = Obj(er_cls, {'start': 0, 'length': 8, 'text': '2,5 unit', 'type': cur.value, 'data': Obj(er_cls, {}), 'meta_data': None})
+        construct = 'BaseCurrencyParser.parse (single amount, %s)' % what
+        try:
+            ret = it.call_function(FuncRef(c.mod, fn, c), [src], {}, None, selfobj=selfo)
+            val = it.getattr(ret, 'value', None, c)
+            number = it.getattr(val, 'number', None, c)
+            uname = it.getattr(val, 'unit', None, c)
+        except PyExc as ex:
+            chk.bad('C05.format-once', c.mod.path, construct, 'raises', 'interpreting the single-amount path raises %s' % ex, fn.lineno)
+            continue
+        prob = format_tag_problem(number, SENT)
+        if prob is None and uname != unit:
+            prob = 'the unit %r comes out as %r' % (unit, uname)
+        if prob:
+            chk.bad('C05.format-once', c.mod.path, construct, 'number %r -> %r' % (SENT, number),
+                    "%s. The unit parser's number is already the culture-formatted resolution string; CultureInfo.format maps the "
+                    "decimal and thousands marks character by character, so a second application turns the decimal comma of "
+                    "'2,5' into '2.5' (de, fr, es, it, pt, nl)" % prob, fn.lineno)
+        else:
+            chk.ok('C05.format-once', c.mod.path, construct, 'number passed through unformatted', fn.lineno)
+
+
 # ---- prefix selection in NumberWithUnitExtractor.extract (tabulated with sa/ointerp.py) ---------------------
 
 def find_prefix_selection(fn):
@@ -2353,6 +2496,9 @@ def controls(chk, mech):
     chk.control('C05.bind', bool(d_last) and h_last['first_wins'] is False and bool(d_low) and 'lower' in (h_low['value_case'], h_low['token_case'])
                 and not d_ok and bool(fit_binding(_obs(dict(PINNED_HYP, empty_token=True)))[1])
                 and bool(fit_binding(_obs(dict(PINNED_HYP, value_strip=False)))[1]))
+    chk.control('C05.one-entity', one_entity_problem('1 $', [(0, 2, '1 $'), (2, 2, '$')], [(0, 2)]) is not None
+                and one_entity_problem('1 $', [(0, 2, '1 $')], [(0, 2)]) is None and one_entity_problem('1$', [], [(0, 1)]) is not None)
+    chk.control('C05.format-once', format_tag_problem('fmt(2,5)', '2,5') is not None and format_tag_problem('2,5', '2,5') is None)
     chk.control('C05.blank', parser_lookup(um, ' pinta', '')[0] is None)
     pre = mech['preprocess']
     chk.control('C05.case', pre('5 Rwandan Zorkmid ') == '5 rwandan zorkmid '
